@@ -18,19 +18,50 @@ import (
 	"fmt"
 	"runtime"
 	"runtime/debug"
+	"strconv"
+
+	"github.com/protolambda/ztyp/tree"
 )
 
 func init() {
 	registerExec("fl.mem", execFlMem)
+	registerExec("fl.memr", execFlMemR)
 	registerGen("C20f", genC20f)
 }
 
-func execFlMem(st *State, a []string) string {
+func execFlMem(st *State, a []string) string { return flMem(a, 0, 0, false) }
+
+// fl.memr <len> <cap> T x<bytes>: as fl.mem, but the destination is a recycled object: every
+// byte / root slice in it (top level, container fields, union-free) has the given length and
+// capacity, allocated outside the measured window.  Recycling may only lower the allocation.
+func execFlMemR(st *State, a []string) string {
+	n, _ := strconv.Atoi(a[0])
+	c, _ := strconv.Atoi(a[1])
+	return flMem(a[2:], n, c, true)
+}
+
+func flatPresize(f *flatVal, n, c int) {
+	switch flatRouteOf(f.t) {
+	case frRootsList, frRootsVector:
+		f.roots = make([]tree.Root, n, c)
+	case frByteList, frByteVector, frBitList, frBitVector:
+		f.bytes = make([]byte, n, c)
+	case frContainer, frFixedContainer:
+		for _, e := range f.elems {
+			flatPresize(e, n, c)
+		}
+	}
+}
+
+func flMem(a []string, preLen, preCap int, recycled bool) string {
 	p := &parser{toks: a}
 	t := p.ty()
 	bs := unhex(p.next())
 	run := func() (uint64, string) {
 		f := newFlat(t)
+		if recycled {
+			flatPresize(f, preLen, preCap)
+		}
 		var m0, m1 runtime.MemStats
 		old := debug.SetGCPercent(-1)
 		defer debug.SetGCPercent(old)
@@ -101,4 +132,43 @@ func genC20f(g *Gen, tier string, w *bufio.Writer) {
 			fmt.Fprintf(w, "fl.mem %s %s\n", t, hexs(bs))
 		}
 	}
+	emitWrapProbes(w, "fl.mem")
+	// recycled destinations: large spare capacity, short / empty / full previous length
+	rl := &Ty{Kind: KList, N: 1 << 40, Elem: r32}
+	bl := &Ty{Kind: KList, N: 1 << 40, Elem: u8}
+	bits := &Ty{Kind: KBitlist, N: 1 << 40}
+	rtypes := []*Ty{rl, bl, bits, {Kind: KVector, N: 3, Elem: r32}, {Kind: KContainer, Fields: []*Ty{rl, bl, bits}}, {Kind: KContainer, Fields: []*Ty{{Kind: KUint, N: 8}, rl}}}
+	for _, t := range rtypes {
+		for _, items := range []int{0, 1, 2, 3, 5, 8} {
+			bs := refSer(t, flMemVal(g, t, items))
+			for _, lc := range [][2]int{{0, 1 << 20}, {1, 1 << 20}, {2, 1 << 20}, {1 << 20, 1 << 20}, {0, 4}, {4, 4}, {3, 8}, {0, 0}} {
+				fmt.Fprintf(w, "fl.memr %d %d %s %s\n", lc[0], lc[1], t, hexs(bs))
+			}
+		}
+	}
+}
+
+// flMemVal: a value of t whose series all have `items` elements (vectors: their fixed length).
+func flMemVal(g *Gen, t *Ty, items int) *Val {
+	switch t.Kind {
+	case KList:
+		seq := make([]*Val, items)
+		for i := range seq {
+			seq[i] = g.RandVal(t.Elem, 4)
+		}
+		return &Val{Kind: VSeq, Seq: seq}
+	case KBitlist:
+		bits := make([]bool, 8*items)
+		for i := range bits {
+			bits[i] = g.Chance(50)
+		}
+		return &Val{Kind: VBits, Bits: bits}
+	case KContainer:
+		seq := make([]*Val, len(t.Fields))
+		for i, ft := range t.Fields {
+			seq[i] = flMemVal(g, ft, items)
+		}
+		return &Val{Kind: VSeq, Seq: seq}
+	}
+	return g.RandVal(t, 8)
 }
